@@ -92,7 +92,11 @@ func (lineParser *LineParser) parseMarkup() (*ParseResult, error) {
 					return nil, fmt.Errorf("failed to process replacement marker: %w", err)
 				}
 
-				builder.WriteString(replacementText)
+				// Like the plain text, the replacement text is written rune by rune: each invalid byte becomes
+				// one U+FFFD, so that bytes of two replacements can not combine into one character afterwards.
+				for _, replacementRune := range replacementText {
+					builder.WriteRune(replacementRune)
+				}
 			}
 
 			trimWhitespaceIfAble := false
